@@ -111,6 +111,9 @@ def run(pid, tier, seed):
                 why = mod.check_impl(c, io, ctx, prof) if hasattr(mod, 'check_impl') else None
                 if why:
                     kf = match_known(known, c, why)
+                    if kf is None and hasattr(mod, 'classify'):
+                        kid = mod.classify(c, io, why)
+                        kf = next((f for f in known if f.get('id') == kid), None) if kid else None
                     if kf:
                         known_hits[kf['id']] = known_hits.get(kf['id'], 0) + 1
                     else:
@@ -141,6 +144,9 @@ def run(pid, tier, seed):
             broken.append(b)
         for v in found:
             kf = match_known(known, {'line': v['case']}, v['why'])
+            if kf is None and hasattr(mod, 'classify'):
+                kid = mod.classify({'line': v['case']}, v.get('impl', ''), v['why'])
+                kf = next((f for f in known if f.get('id') == kid), None) if kid else None
             if not kf:
                 violations.append(v)
 
